@@ -349,7 +349,7 @@ func (m *model) applyTx(signer *chain.Account, signerIdx int, tx txSpec, newDeno
 // with the message kinds that were executed in the block; createdNow are the denoms created in
 // this block (their default bank metadata and the creators' fee payments are adopted from the
 // observation, see adoptAfterCreate).
-func (m *model) compare(o *observed, kindsFor func(denom string) string) (fs []finding) {
+func (m *model) compare(o *observed, kindsFor func(denom string, prefer ...string) string) (fs []finding) {
 	// supply, every denom
 	for _, d := range unionKeys(keysB(m.supply), keysB(o.supply)) {
 		want, got := m.supplyOf(d), zeroIfNil(o.supply[d])
@@ -357,16 +357,16 @@ func (m *model) compare(o *observed, kindsFor func(denom string) string) (fs []f
 			continue
 		}
 		if t, ok := m.tokens[d]; ok {
-			fs = append(fs, finding{"state:supply-mismatch/after:" + kindsFor(d), fmt.Sprintf("supply of %q is %s but successful mints %s - successful burns %s = %s", d, got, t.Minted, t.Burned, want)})
+			fs = append(fs, finding{"state:supply-mismatch/after:" + kindsFor(d, "mint", "burn"), fmt.Sprintf("supply of %q is %s but successful mints %s - successful burns %s = %s", d, got, t.Minted, t.Burned, want)})
 		} else {
-			fs = append(fs, finding{"state:non-factory-supply-changed/after:" + kindsFor(d), fmt.Sprintf("supply of non-factory denom %q is %s, expected unchanged %s", d, got, want)})
+			fs = append(fs, finding{"state:non-factory-supply-changed/after:" + kindsFor(d, "mint", "burn"), fmt.Sprintf("supply of non-factory denom %q is %s, expected unchanged %s", d, got, want)})
 		}
 	}
 	// explicit statement form: supply == sum(mints) - sum(burns)
 	for d, t := range m.tokens {
 		want := new(big.Int).Sub(t.Minted, t.Burned)
 		if got := zeroIfNil(o.supply[d]); want.Cmp(got) != 0 && m.supplyOf(d).Cmp(got) == 0 {
-			fs = append(fs, finding{"state:supply-mismatch/after:" + kindsFor(d), fmt.Sprintf("supply of %q is %s but mints %s - burns %s = %s", d, got, t.Minted, t.Burned, want)})
+			fs = append(fs, finding{"state:supply-mismatch/after:" + kindsFor(d, "mint", "burn"), fmt.Sprintf("supply of %q is %s but mints %s - burns %s = %s", d, got, t.Minted, t.Burned, want)})
 		}
 	}
 	// balances, every denom and account
@@ -392,7 +392,7 @@ func (m *model) compare(o *observed, kindsFor func(denom string) string) (fs []f
 				if _, ok := m.tokens[d]; !ok {
 					cls = "non-factory"
 				}
-				fs = append(fs, finding{"state:balance-mismatch/after:" + kindsFor(d), fmt.Sprintf("balance of %s in %s denom %q is %s, the model (only the acting admin's balance moves) says %s", a, cls, d, got, want)})
+				fs = append(fs, finding{"state:balance-mismatch/after:" + kindsFor(d, "mint", "burn", "send"), fmt.Sprintf("balance of %s in %s denom %q is %s, the model (only the acting admin's balance moves) says %s", a, cls, d, got, want)})
 			}
 		}
 	}
@@ -406,7 +406,7 @@ func (m *model) compare(o *observed, kindsFor func(denom string) string) (fs []f
 	}
 	for _, b := range unionKeys(bases, nil) {
 		if m.meta[b] != o.meta[b] {
-			fs = append(fs, finding{"state:metadata-mismatch/after:" + kindsFor(b), fmt.Sprintf("bank metadata of %q is %s, the model (only a successful set by the admin changes it) says %s", b, short(o.meta[b]), short(m.meta[b]))})
+			fs = append(fs, finding{"state:metadata-mismatch/after:" + kindsFor(b, "setmeta", "create"), fmt.Sprintf("bank metadata of %q is %s, the model (only a successful set by the admin changes it) says %s", b, short(o.meta[b]), short(m.meta[b]))})
 		}
 	}
 	// authority metadata: exactly the created denoms, with the model's admin
@@ -422,11 +422,11 @@ func (m *model) compare(o *observed, kindsFor func(denom string) string) (fs []f
 		got, inStore := o.admin[d]
 		switch {
 		case inModel && !inStore:
-			fs = append(fs, finding{"state:authority-metadata-missing/after:" + kindsFor(d), fmt.Sprintf("factory token %q (admin %q) has no authority metadata in the store", d, t.Admin)})
+			fs = append(fs, finding{"state:authority-metadata-missing/after:" + kindsFor(d, "chadmin", "create"), fmt.Sprintf("factory token %q (admin %q) has no authority metadata in the store", d, t.Admin)})
 		case !inModel && inStore:
-			fs = append(fs, finding{"state:authority-metadata-for-uncreated-denom/after:" + kindsFor(d), fmt.Sprintf("store holds authority metadata (admin %q) for %q which no successful create produced", got, d)})
+			fs = append(fs, finding{"state:authority-metadata-for-uncreated-denom/after:" + kindsFor(d, "chadmin", "create"), fmt.Sprintf("store holds authority metadata (admin %q) for %q which no successful create produced", got, d)})
 		case t.Admin != got:
-			fs = append(fs, finding{"state:admin-mismatch/after:" + kindsFor(d), fmt.Sprintf("admin of %q is %q in the store, the model (only the admin hands the role over) says %q", d, got, t.Admin)})
+			fs = append(fs, finding{"state:admin-mismatch/after:" + kindsFor(d, "chadmin", "create"), fmt.Sprintf("admin of %q is %q in the store, the model (only the admin hands the role over) says %q", d, got, t.Admin)})
 		}
 	}
 	return fs
